@@ -400,6 +400,83 @@ def part_order(run):
     return len(jobs)
 
 
+# ---- isolation between transcripts ----------------------------------------------------------------
+def isolation_cases():
+    """X = an isoform of the three-isoform gene of R7 with an intron-retaining Insertion (donor = the first 12 nt of the
+    intron after one of its exons); Y = another isoform with ONE SNV that is intronic for Y and lies inside X's donor
+    segment (gene coordinates).  Y's record cannot contribute to X, and Y itself has nothing to call."""
+    import cvoracle as CV
+    ref = panel.get('R7')
+    txs = ['ENST0A1', 'ENST0A2', 'ENST0A3']
+    g = ref.gene_of[txs[0]]['gene_id']
+    gs = ref.gene_seq(g)
+    out = []
+    for x in txs:
+        exx = ref.exons_gene(x)
+        for k in range(len(exx) - 1):
+            pos, ds, de = exx[k][1] - 1, exx[k][1], min(exx[k][1] + 12, exx[k + 1][0])
+            rec = CV.AS('Insertion', g, x, pos, pos + 1, ds, de, vid=f'RI-{pos}-{ds}-{de}')
+            for y in txs:
+                if y == x:
+                    continue
+                exy = ref.exons_gene(y)
+                for p in range(ds, de):
+                    if any(a <= p < b for a, b in exy) or not (exy[0][0] <= p < exy[-1][1]):
+                        continue        # exonic for Y or outside Y
+                    alt = 'A' if gs[p] != 'A' else 'C'
+                    out.append((x, y, rec, CV.Var(g, y, p, p + 1, gs[p], alt)))
+    return out
+
+
+def isolation_case(job):
+    i, threads = job
+    x, y, rec, v = isolation_cases()[i]
+    M = importlib.import_module('moPepGen.cli.call_variant_peptide')
+    orig_pool = M.ParallelPool
+    M.ParallelPool = OrderedPool
+    try:
+        alone = E.execute(E.Case('R7', as_recs=(rec,), cfg=E.Cfg(exception=None, threads=threads)))
+        both = E.execute(E.Case('R7', as_recs=(rec,), small=(v,), cfg=E.Cfg(exception=None, threads=threads)))
+    finally:
+        M.ParallelPool = orig_pool
+    return dict(alone=alone, both=both)
+
+
+def part_isolation(run):
+    cases = isolation_cases()
+    tl = (1, 2, 3)
+    jobs = [(i, t) for i in range(len(cases)) for t in tl]
+    res = vlib.pmap(isolation_case, jobs, jobs=run.jobs)
+    errs = vlib.harness_errors(res)
+    if errs:
+        raise RuntimeError(errs[0])
+    nt = 0
+    base = {}
+    for (i, t), r in zip(jobs, res):
+        x, y, rec, v = cases[i]
+        key = f'isolation/{x}:{rec.vid}+{y}:{v.id()}/threads{t}'
+        rep = dict(kind='isolation', index=i, threads=t)
+        if not r['alone']['ok'] or not r['both']['ok']:
+            if r['alone']['ok'] != r['both']['ok']:
+                run.violation(key + '|one-crashes', f"alone ok={r['alone']['ok']} with the other transcript's record ok={r['both']['ok']}: "
+                              f"{r['alone']['exc'] or r['both']['exc']}", rep)
+            continue
+        a, b = r['alone']['peptides'] or {}, r['both']['peptides'] or {}
+        if a or b:
+            nt += 1
+        if set(a) != set(b):
+            run.violation(key + '|foreign-record-changes-output',
+                          f"{y}'s intronic SNV {v.id()} changes the peptides of {x} ({rec.vid}): extra {sorted(set(b) - set(a))[:4]} "
+                          f"missing {sorted(set(a) - set(b))[:4]}", rep)
+        if t == 1:
+            base[i] = set(b)
+        elif i in base and set(b) != base[i]:
+            run.violation(key + '|differs-from-threads1', f'peptides differ from --threads 1: extra {sorted(set(b) - base[i])[:4]} '
+                          f'missing {sorted(base[i] - set(b))[:4]}', rep)
+    run.block('isolation-between-isoforms', 2 * len(jobs), nt, True, cases=len(cases), threads='1,2,3')
+    return len(jobs)
+
+
 def replay(path):
     import json
     r = json.load(open(path))
@@ -413,6 +490,12 @@ def replay(path):
         a = layout_case((r['layout'], r['with_idx'], False))
         b = layout_case(([[0, 1, 2, 3, 4]], False, False))
         print('this:', a['pairs'] if a['ok'] else a['exc'], '\nbase:', b['pairs'])
+    elif r['kind'] == 'isolation':
+        x, y, rec, v = isolation_cases()[r['index']]
+        o = isolation_case((r['index'], r['threads']))
+        print(f"X={x} record {rec.vid}; Y={y} intronic SNV {v.id()}; threads={r['threads']}")
+        print('X alone        :', sorted(o['alone']['peptides'] or {}) if o['alone']['ok'] else o['alone']['exc'])
+        print("with Y's record:", sorted(o['both']['peptides'] or {}) if o['both']['ok'] else o['both']['exc'])
     elif r['kind'] == 'order':
         c = CC.case_from_replay(r['case'])
         for salt in (0, r['salt']):
@@ -429,6 +512,8 @@ def main():
     run.rule = ('dispatch loop: every (n<=6 transcripts, skip pattern in 2^n, threads in 1..7) for two skip mechanisms; '
                 'layouts: every set partition of 5 records into <=3 files x every file order x two record orders x idx; '
                 'reference form: 5 parameter sets x cases; hash seeds 0,1,2,3,random and the real ParallelPool at the CLI; '
+                'isolation: every (isoform X with an intron-retaining record, other isoform Y with one intronic SNV inside X\'s '
+                'donor segment) x threads 1..3, with and without Y\'s record; '
                 'non-trivial = the output has peptides.')
     run.assume('pathos ParallelPool.map returns results in submission order; the exhaustive dispatch exploration replaces it '
                'by an ordered in-process map and a small CLI block runs the real pool')
@@ -445,6 +530,8 @@ def main():
         traces += part_seeds(run)
     if run.want('order'):
         traces += part_order(run)
+    if run.want('isolation'):
+        traces += part_isolation(run)
     run.finish(states=max(states, 1), transitions=max(transitions, 1), traces=traces)
 
 
